@@ -111,13 +111,16 @@ func runPhase(env Env, p Property, ph Phase, seed uint64, deadline int64, known 
 		if hashes {
 			args = append(args, "-hashes")
 		}
+		if ph.Fresh {
+			args = append(args, "-fresh")
+		}
 		cmd := workerCmd(bin, ph.Race, args)
 		cmd.Env = os.Environ()
 		if ph.MaxProcs > 0 {
 			cmd.Env = append(cmd.Env, "GOMAXPROCS="+strconv.Itoa(ph.MaxProcs))
 		}
 		if ph.Race {
-			cmd.Env = append(cmd.Env, "GORACE=halt_on_error=1 exitcode=66 history_size=5")
+			cmd.Env = append(cmd.Env, "GORACE=halt_on_error=1 exitcode=66 history_size=5 atexit_sleep_ms=0")
 		}
 		cmd.Stderr = &stderrs[k]
 		cmd.Stdout = &stderrs[k]
@@ -311,7 +314,7 @@ func execSeq(env Env, p Property, phase Phase, prelude []json.RawMessage, raw []
 		cmd.Env = append(cmd.Env, "GOMAXPROCS="+strconv.Itoa(phase.MaxProcs))
 	}
 	if phase.Race {
-		cmd.Env = append(cmd.Env, "GORACE=halt_on_error=1 exitcode=66 history_size=5")
+		cmd.Env = append(cmd.Env, "GORACE=halt_on_error=1 exitcode=66 history_size=5 atexit_sleep_ms=0")
 	}
 	var buf bytes.Buffer
 	cmd.Stdout, cmd.Stderr = &buf, &buf
